@@ -1034,6 +1034,14 @@ M("c07-f39-reintroduced", ["C07", "C16"], ["C07.cachekey", "C16.cachekey"],
             # code (closures of one factory) may each declare their own
             return user_function(cls, method)
 """, ""))
+M("c10-f40-reintroduced", ["C10", "C11"], ["C10.access", "C11.target"],
+  E("statemachine/factory.py", """        if other is not None and other is not state:
+            raise InvalidDefinition(
+                _("States '{}' and '{}' have the same value {!r}.").format(
+                    other.id, state.id, state.value
+                )
+            )
+""", ""))
 M("c07-partial-key-ignores-keywords", ["C07", "C16"], ["C07.cachekey", "C16.cachekey"],
   E(SIG, "        bound = (len(method.args), tuple(sorted(method.keywords)))", "        bound = len(method.args)"))
 M("c17-event-deepcopy-returns-self", ["C17", "C13"], ["C17.carry", "C13.bind"],
